@@ -435,7 +435,7 @@ def part_recover(ctx, sim_files, consts_of):
            'file_sizes': [len(b['data']) for b in sources], 'file_txns': [b['ntx'] for b in sources],
            'files_with_backpointers': sum(1 for b in sources if b['backs']), 'files_packed': sum(1 for b in sources if b['packed']),
            'files_with_uncreation': sum(1 for b in sources if b['zeros']),
-           'by_kind': {}, 'every_byte_files': every_n}
+           'by_kind': {}, 'events': {}, 'every_byte_files': every_n}
     batches = par.chunks(list(range(len(results))), max(1, len(results) // 20000 + 1))
     for bi, idx in enumerate(batches):
         r, verdicts = validate_runs(ctx, 'b%d' % bi, files, [results[i]['run'] for i in idx])
@@ -449,6 +449,9 @@ def part_recover(ctx, sim_files, consts_of):
             cov['crashes'] += res['how'].startswith('crash')
             cov['altered_outputs'] += res['altered'] > 0
             cov['with_scan'] += res['scans'] > 0
+            for e in res['run']['ev']:
+                kk = 'hdr-' + e['r'] if e['k'] == 'hdr' else ('copy-same' if e['same'] else 'copy-altered') if e['k'] == 'copy' else e['k']
+                cov['events'][kk] = cov['events'].get(kk, 0) + 1
             if res['table']:
                 ctx.violation({'tool': 'fsrecover', 'what': 'undamaged-recovery-differs', 'where': where_of(res['table'][0])},
                               'recovery of the undamaged file %d answers differently from the table TLC printed: %s (history %s)' % (
@@ -470,6 +473,12 @@ def part_recover(ctx, sim_files, consts_of):
     cov['sample'] = {'damage': dmg_text(results[len(results) // 2]['dmg']), 'events': [_ev_text(e) for e in results[len(results) // 2]['run']['ev']]}
     if not (cov['with_scan'] and cov['altered_outputs'] and cov['by_kind'].get('none')):
         raise RuntimeError('vacuous recovery runs: %r' % cov)
+    # every step of ZRecoverTool that undamaged or uniformly filled bytes can produce must have been taken by some run
+    # (HeaderUndone and Crash need a lucky noise byte / an unhandled exception: counted, not demanded)
+    for need in ('open', 'die', 'hdr-ok', 'hdr-err', 'hdr-eof', 'scan', 'copy-same', 'copy-altered', 'abort', 'end'):
+        if not cov['events'].get(need):
+            raise RuntimeError('vacuous: no recorded run took the step %s of ZRecoverTool (%r)' % (need, cov['events']))
+    cov['steps_never_taken'] = [k for k in ('hdr-undone', 'crash') if not cov['events'].get(k)]
     return cov
 
 
@@ -538,3 +547,25 @@ def run(ctx):
                  '(b) single damaged range or truncation per run; fills 0x00, 0xff, \'.\', seeded noise',
                  '(c) files are one fill byte (0x00 / 0xff) plus dots; scaled-down CHUNK configurations hand scan() a file object whose '
                  'read returns at most CHUNK bytes; hang = a third read at an unchanged position, more reads than bytes, or 10 s'])
+
+
+def replay(ctx, data):
+    """./check C17 --replay replays/C17-<hash>.json: a scan pattern is run again directly on the real scan(); any other
+    divergence is reproduced by running the check with the recorded seed and tier (the histories are regenerated by
+    TLC from that seed) and looking for the recorded signature."""
+    rp = data.get('replay') or {}
+    if rp.get('part') == 'scan':
+        p = rp['pattern']
+        got = rv.real_scan(rv.pattern_bytes(p['n'], p['fill'], p['dots']), p['start'], rp.get('chunk') or p.get('chunk') or 8096)
+        print('scan on %d bytes (fill %s, dots %s) from %d -> %s' % (p['n'], p['fill'], p['dots'], p['start'], got))
+        if got == 'hang' or ('spec' in p and got != p['spec']):
+            import json          # (no evidence is written for a single replayed pattern)
+            print('VIOLATION property=%s replay=%s' % (ctx.pid, ctx.replay))
+            print('  signature: %s' % json.dumps(data['signature'], sort_keys=True))
+            print('  reproduced: %s' % data['description'])
+            return 1
+        return 0
+    ctx.seed = data.get('seed', ctx.seed)
+    ctx.tier = data.get('tier', ctx.tier)
+    ctx.quick = ctx.tier == 'quick'
+    return run(ctx)
